@@ -557,4 +557,30 @@ impl FootprintGuard {
             }
         }
     }
+
+    /// Validates the state-dependent write targets of an emitted op.
+    ///
+    /// [`op_write_targets`] is a function of the op alone, but an `UpsertEdge`
+    /// for an edge id that already exists under a *different* source node also
+    /// rewrites that previous source's outbound edge list (same-id edge
+    /// migration). That adjacency is observable through `GraphView::edges_from`,
+    /// so the previous source node must be declared in `n_write` as well.
+    #[track_caller]
+    pub(crate) fn check_op_against_store(&self, op: &WarpOp, store: &crate::graph::GraphStore) {
+        if let WarpOp::UpsertEdge { warp_id, record } = op {
+            if *warp_id != self.warp_id {
+                return;
+            }
+            if let Some(prev_from) = store.edge_index.get(&record.id) {
+                if *prev_from != record.from && !self.nodes_write.contains(prev_from) {
+                    std::panic::panic_any(FootprintViolation {
+                        rule_name: self.rule_name,
+                        warp_id: self.warp_id,
+                        kind: ViolationKind::NodeWriteNotDeclared(*prev_from),
+                        op_kind: op_kind_str(op),
+                    });
+                }
+            }
+        }
+    }
 }
